@@ -109,6 +109,12 @@ var templates = []tmpl{
 		`module m { ` + hdr("m") + ` include s; container c { leaf own { type string; } %PAD } }`,
 		`submodule s { belongs-to m { prefix m; } revision 2019-01-01; augment "/m:c" { leaf old { type string; } } leaf sold { type string; } }`,
 		`submodule s { belongs-to m { prefix m; } revision 2020-01-01; augment "/m:c" { leaf new { type string; } } leaf snew { type string; } }`}},
+	{name: "late-augment-written-in-a-submodule-brings-a-choice", augment: true, clean: true, present: [][]string{{"c", "ch", "x", "x", "inner", "b", "b"}, {"c", "ch", "x", "x", "late", "l2", "l2", "deep"}, {"c", "ch", "x", "x", "late", "l1", "l1"}}, files: []string{
+		`module m { ` + hdr("m") + ` include s; container c { choice ch { container x { choice inner { leaf a { type string; } } } } %PAD } }`,
+		`submodule s { belongs-to m { prefix m; } augment "/m:c/m:ch/m:x/m:x" { choice late { leaf l1 { type string; } container l2 { leaf deep { type string; } } } } augment "/m:c/m:ch/m:x/m:x/m:inner" { leaf b { type string; } } }`}},
+	{name: "not-supported-twice-in-one-deviation-written-in-a-submodule", files: []string{
+		`module m { ` + hdr("m") + ` include s; container c { leaf x { type string; } leaf y { type string; } %PAD } rpc r { input { leaf i { type string; } } } }`,
+		`submodule s { belongs-to m { prefix m; } deviation %SUBDEV { deviate not-supported; deviate not-supported; } }`}},
 	{name: "augment-path-leaves-out-an-explicit-case", augment: true, files: []string{
 		`module m { ` + hdr("m") + ` container top { choice ch { case c1 { container cont { leaf in { type string; } } } case c2 { leaf other { type string; } } } %PAD } rpc r { input { choice how { case by-name { container sel { leaf n { type string; } } } } } } }`,
 		`module b { ` + hdr("b") + ` import m { prefix m; } augment %NOCASE { leaf bad { type string; } } }`}},
@@ -192,6 +198,7 @@ func Run(j *job.Job, s *job.Sink) {
 			txt = strings.ReplaceAll(txt, "%SUBBAD", []string{"/m:c/m:missing", "/m:c/m:l", "/m:nowhere", "/c/missing", "/sc/sl", "/m:sc/m:nothere"}[r.Intn(6)])
 			txt = strings.ReplaceAll(txt, "%NOLEAF", []string{"c", "l", "ch"}[r.Intn(3)])
 			txt = strings.ReplaceAll(txt, "%ADDREP", []string{"add", "replace"}[r.Intn(2)])
+			txt = strings.ReplaceAll(txt, "%SUBDEV", []string{"/m:c/m:x", "/m:r/m:input", "/c/y"}[r.Intn(3)])
 			txt = strings.ReplaceAll(txt, "%GONE", []string{"/m:top/m:box", "/m:top"}[r.Intn(2)])
 			txt = strings.ReplaceAll(txt, "%LEAFY", []string{"lf", "ll", "ax", "ad"}[r.Intn(4)])
 			txt = strings.ReplaceAll(txt, "%EMPTYBODY", []string{"uses nothing;", "description \"nothing\";", "when \"../m:lf\";", "uses nothing; reference \"r\";", ""}[r.Intn(5)])
